@@ -39,6 +39,8 @@ def run(ck, ctx):
                      "from the encoded one although it compares equal)")
     ck.rule("R14.9", "an encoder encodes what it was given: the checkpoint writer (and the manager in front of it) passes the state map it "
                      "received into the encoded CheckpointData unchanged - no retain/filter/remove on the way - and key_count is its length")
+    from . import bounds as _bounds
+    ck.rule("R14.10", _bounds.TEXT % "the WAL, segment and checkpoint decoders")
     ck.nd("round-trip equality for all values (derive-generated serde and bincode/serde_json are trusted); detection probability of CRC32")
     for cfg in ctx.configs:
         prog = ctx.prog(cfg)
@@ -52,6 +54,8 @@ def run(ck, ctx):
         _r145(ck, prog, cfg)
         _r148(ck, prog, cfg)
         _r149(ck, prog, cfg)
+        _bounds.rule(ck, prog, cfg, "R14.10", ("src/streaming/wal.rs", "src/streaming/segment.rs", "src/streaming/checkpoint.rs"),
+                     "a truncated segment, checkpoint or WAL image", exempt={"CheckpointReader::<'a>::load": "load() reads the offsets validate() has checked; R14.4 requires a successful validate() before every load() on the recovery and checkpoint paths"}, floor=20, tag=_tag(cfg))
         from . import c10
         c10._r101(_Alias(ck, "R10.1", "R14.6"), prog, cfg)
 
